@@ -34,6 +34,7 @@ func (v *Violation) Sig() string { return v.Oracle + "/" + v.Kind }
 
 type fingerprint struct {
 	structure, identity uint64
+	canon               string // structural canonical form at creation (for reports)
 	full                string
 	haveFull            bool
 }
@@ -55,6 +56,7 @@ type world struct {
 func takeFP(e *expr.Expression, full bool) fingerprint {
 	var f fingerprint
 	f.structure, f.identity = structHash(e)
+	f.canon = canonStruct(e)
 	if full {
 		f.full = canonFull(e)
 		f.haveFull = true
@@ -114,7 +116,7 @@ func (w *world) checkShared(i int, slot int, task, opIdx int, kind, when string)
 		}
 		w.note(slot, &Violation{Oracle: "O2", Task: task, Op: opIdx, Kind: kind,
 			What: fmt.Sprintf("shared expression #%d changed (%s) %s", i, what, when),
-			Got:  canonStruct(e)})
+			Want: w.fp[i].canon, Got: canonStruct(e)})
 	}
 }
 
@@ -252,7 +254,7 @@ func (w *world) soloOp(t, i int) (res string, steps uint64) {
 		case KParse, KToPG, KToParam, KUnmarshal, KNewDriver:
 		default:
 			if op.Shared >= 0 {
-				zsimrt.CountPause(true) // in the simulated run the shared subject exists before the operation starts
+				zsimrt.CountPause(true)                // in the simulated run the shared subject exists before the operation starts
 				e = buildExpr(&w.sc.Shared[op.Shared]) // a fresh, unshared copy
 				shared = true
 			} else if op.Priv != nil {
@@ -434,11 +436,17 @@ func runScenario(sc *Scenario, r *zsimrt.Rand, replay []zsimrt.Decision) *Outcom
 			}
 			initial = append(initial, t)
 		}
-		out.Stats, out.Decisions = zsimrt.Run(cfg, r, nT, initial, func(t int) {
+		taskBody := func(t int) {
 			for i := range sc.Tasks[t] {
 				w.simOp(t, i)
 			}
-		})
+		}
+		if zsimrt.Instrumented {
+			out.Stats, out.Decisions = zsimrt.Run(cfg, r, nT, initial, taskBody)
+		} else {
+			zsimrt.StepHook = nil
+			zsimrt.RunFree(nT, initial, taskBody) // degraded mode
+		}
 		// end of run: every shared expression is what it was when it was created
 		for i := range sc.Shared {
 			if !w.fpSet[i] {
@@ -501,7 +509,13 @@ func runScenario(sc *Scenario, r *zsimrt.Rand, replay []zsimrt.Decision) *Outcom
 				continue
 			}
 			if len(got) >= 6 && got[:6] == "abort:" {
-				if out.Stats.Overrun && out.Stats.OverrunTask == t {
+				fair := (sc.Sched.Policy == "uniform" || sc.Sched.Policy == "rr" || sc.Sched.Policy == "targeted") && sc.Sched.StallPermil == 0
+				if out.Stats.Overrun && out.Stats.OverrunTask == t && !fair {
+					// under an unfair policy (PCT, single preemption) or an injected stall a legitimate
+					// spin-wait inside the library could exceed any bound: recorded, not judged
+					out.Probes["overrun_under_unfair_policy"]++
+				}
+				if out.Stats.Overrun && out.Stats.OverrunTask == t && fair {
 					keep(&Violation{Oracle: "L2", Task: t, Op: i, Kind: op.Kind,
 						What: fmt.Sprintf("operation exceeded its step bound (%d solo steps, bound %d) and did not produce the sequential result", soloSteps[f], w.limits[t][i]),
 						Want: refA[f], Step: out.Stats.OverrunStep})
